@@ -87,6 +87,9 @@ func (p *Program) callerIndex() map[*ssa.Function]*callerInfo {
 				}
 				for _, op := range in.Operands(nil) {
 					if f, ok := (*op).(*ssa.Function); ok && f != callee {
+						if mc, isMC := in.(*ssa.MakeClosure); isMC && immediatelyInvoked(mc) {
+							continue // func() { … }(): the literal is called where it is written and nowhere else
+						}
 						get(f).valueUse = true
 					}
 					if mc, ok := (*op).(*ssa.MakeClosure); ok {
@@ -126,8 +129,25 @@ func (p *Program) transparent(fn *ssa.Function) bool {
 	}
 	res := false
 	defer func() { p.transp[fn] = res }()
-	if p.AllFuncs == nil || fn.Parent() != nil || fn.Blocks == nil || fn.Synthetic != "" || !p.inRapid(fn) {
+	if p.AllFuncs == nil || fn.Blocks == nil || fn.Synthetic != "" || !p.inRapid(fn) {
 		return false
+	}
+	if fn.Parent() != nil {
+		// a function literal is a helper only when it is invoked on the spot (its free variables resolve to the bindings)
+		ci := p.callerIndex()[fn]
+		if ci == nil || ci.valueUse || len(ci.sites) != 1 {
+			return false
+		}
+		c, isCall := ci.sites[0].(*ssa.Call)
+		if !isCall {
+			return false
+		}
+		mc, isMC := c.Common().Value.(*ssa.MakeClosure)
+		if !isMC || !immediatelyInvoked(mc) || c.Parent() != fn.Parent() {
+			return false
+		}
+		res = true
+		return true
 	}
 	if o := fn.Origin(); o != nil {
 		res = p.transparent(o)
@@ -510,4 +530,26 @@ func (p *Program) tCreator(c *ssa.Call) (inner *ssa.Call, ok bool) {
 // named init).
 func isPackageInit(fn *ssa.Function) bool {
 	return fn.Signature.Recv() == nil && (fn.Name() == "init" || strings.HasPrefix(fn.Name(), "init#"))
+}
+
+// immediatelyInvoked: the closure value is used by exactly one plain call (not deferred, not go'd, not stored).
+func immediatelyInvoked(mc *ssa.MakeClosure) bool {
+	refs := mc.Referrers()
+	if refs == nil {
+		return false
+	}
+	n := 0
+	for _, r := range *refs {
+		switch x := r.(type) {
+		case *ssa.DebugRef:
+		case *ssa.Call:
+			if x.Common().Value != ssa.Value(mc) {
+				return false
+			}
+			n++
+		default:
+			return false
+		}
+	}
+	return n == 1
 }
